@@ -42,6 +42,7 @@ func c04Gen(c *core.Ctx, idx int) (*dp.Schema, *dp.DNode, bool) {
 	o.Choices = idx%3 != 0
 	o.NestedChoice = idx%6 == 1
 	o.Aug = idx%5 == 2
+	o.Sub = idx%5 == 4
 	o.Presence = true
 	o.NonConfig = idx%2 == 0
 	o.MaxDepth = 2 + r.Intn(3)
@@ -104,7 +105,7 @@ func (p c04) Run(c *core.Ctx, idx int) {
 		c.Shape("%s", t.Shape())
 	}
 	c.SetSample(map[string]interface{}{"yang": s.Yang(), "tree": t.Dump(s)})
-	wit := func() string { return "schema:\n" + s.Yang() + s.AugYang() + "tree:\n" + t.Dump(s) }
+	wit := func() string { return "schema:\n" + s.Yang() + s.AugYang() + s.SubYang() + "tree:\n" + t.Dump(s) }
 
 	// (1) export from the reference store
 	src := dp.NewStore(s, t.Clone())
